@@ -7,7 +7,7 @@ shapes.  Not decided: numbers.
 import ast
 
 from sa.helpers import (mkflow, spec, code, one, calls, bind_call, param_env,
-                        loop_matches, fmt, atom_of, unparse)
+                        loop_matches, fmt, atom_of, unparse, unalloc, call_kw)
 from sa.index import AnalysisError
 from sa.algebra import RF, Slice
 
@@ -181,16 +181,11 @@ def run(ix, R):
         ev = one([e for e in calls(fl, 'contribute')], 'contribute call')
         # 3.1 tau allocation
         tau = bind_call(ev, CONTRIB_PARAMS, True).get('tau')
-        at = atom_of(fl, tau) if tau is not None else None
+        at = atom_of(fl, unalloc(fl, tau)) if tau is not None else None
         stmt = 'tau is a fresh zero array of shape (nLayers, len(wngrid))'
         ok = False
         if at is not None and at.head == 'call' and at.extra[0] == 'fn:zeros':
-            kwn = at.extra[1:]
-            shape = None
-            if 'shape' in kwn:
-                shape = at.args[len(at.args) - len(kwn) + kwn.index('shape')]
-            elif at.args:
-                shape = at.args[0]
+            shape = call_kw(at, 'shape', 0)
             want = spec(fl, '(self.nLayers, wngrid.shape[0])', b)
             ok = shape is not None and fl.tab.equal(shape, want)
         R.check('3.alloc', 'ACC', site, stmt, ok,
@@ -383,14 +378,13 @@ def chord_obligations(ix, R, site):
     # k = zeros(shape=(nLayers-layer)) ; appended value is 2*k
     k_alloc = None
     for e in fl.of('assign'):
-        a = atom_of(fl, e.value)
+        a = atom_of(fl, unalloc(fl, e.value))
         if a is not None and a.head == 'call' and a.extra[0] == 'fn:zeros' and e.loops:
             k_alloc = e
     if k_alloc is None:
         raise AnalysisError('chord array allocation not found')
-    a = atom_of(fl, k_alloc.value)
-    kwn = a.extra[1:]
-    shape = a.args[len(a.args) - len(kwn) + kwn.index('shape')] if 'shape' in kwn else a.args[0]
+    a = atom_of(fl, unalloc(fl, k_alloc.value))
+    shape = call_kw(a, 'shape', 0)
     R.check('6.len', 'SHAPE', site, 'chord array of tangent layer l has nLayers-l entries',
             fl.tab.equal(shape, spec(fl, 'self.nLayers - layer', {'layer': layer})),
             key='length %s' % fmt(fl, shape), detail='length is %s' % fmt(fl, shape),
@@ -431,43 +425,48 @@ def chord_obligations(ix, R, site):
 # ----------------------------------------------------------------------------
 # self-test variants (DESIGN section 6)
 MUTANTS = [
-    ('kernel-drop-layer-offset', K, 'sigma[k+layer, wn]*_path*_density',
-     'sigma[k, wn]*_path*_density', '1.alg'),
-    ('kernel-drop-density-offset', K, '_density = density[k+density_offset]',
-     '_density = density[k]', '1.alg'),
-    ('kernel-assign', K, 'tau[layer, wn] += sigma[k+layer, wn]*_path*_density',
-     'tau[layer, wn] = sigma[k+layer, wn]*_path*_density', '1.acc'),
-    ('kernel-range', K, 'for k in range(startK, endK):\n        _path = path[k]\n        _density = density[k+density_offset]\n        # for mol',
-     'for k in range(startK, endK-1):\n        _path = path[k]\n        _density = density[k+density_offset]\n        # for mol', '1.alg'),
+    ('kernel-drop-layer-offset', K, 'tau[layer, wn] += sigma[k + layer, wn] * _path * _density',
+     'tau[layer, wn] += sigma[k, wn] * _path * _density', '1.alg'),
+    ('kernel-drop-density-offset', K, "_density = density[k + density_offset]\n        for wn in range(ngrid):\n            tau[layer, wn] += sigma",
+     "_density = density[k]\n        for wn in range(ngrid):\n            tau[layer, wn] += sigma", '1.alg'),
+    ('kernel-assign', K, 'tau[layer, wn] += sigma[k + layer, wn] * _path * _density',
+     'tau[layer, wn] = sigma[k + layer, wn] * _path * _density', '1.acc'),
+    ('kernel-range', K, "for k in range(startK, endK):\n        _path = path[k]\n        _density = density[k + density_offset]\n        for wn in range(ngrid):\n            tau[layer, wn] += sigma",
+     "for k in range(startK, endK - 1):\n        _path = path[k]\n        _density = density[k + density_offset]\n        for wn in range(ngrid):\n            tau[layer, wn] += sigma", '1.alg'),
     ('caller-swap-density-path', K, 'self.sigma_xsec, density, path_length, self._nlayers',
      'self.sigma_xsec, path_length, density, self._nlayers', '2.base'),
-    ('pi-endK', T, 'endK = total_layers-layer', 'endK = total_layers-layer-1', '3.roles'),
+    ('pi-endK', T, 'endK = total_layers - layer', 'endK = total_layers - layer - 1', '3.roles'),
     ('pi-density-offset', T, 'contrib.contribute(self, 0, endK, layer, layer,',
      'contrib.contribute(self, 0, endK, 0, layer,', '3.roles'),
     ('pi-cutoff-max', T, 'if tau[layer].min() > 10:', 'if tau[layer].max() > 10:', '4.cutoff'),
     ('pi-cutoff-low', T, 'if tau[layer].min() > 10:', 'if tau[layer].min() > 1:', '4.cutoff'),
     ('pi-cutoff-lt', T, 'if tau[layer].min() > 10:', 'if tau[layer].min() < 10:', '4.cutoff'),
     ('pi-cutoff-whole', T, 'if tau[layer].min() > 10:', 'if tau.min() > 10:', '4.cutoff'),
+    ('pi-continue', T, "if tau[layer].min() > 10:\n                    break", "if contrib.order > 4:\n                    continue", '4.cutoff'),
     ('pi-path-index', T, 'dl = path_length[layer]', 'dl = path_length[0]', '3.path'),
-    ('abs-drop-z', T, 'np.sum((pradius+ap)*(1.0-tau)*_dz*2.0, axis=0)',
-     'np.sum((pradius)*(1.0-tau)*_dz*2.0, axis=0)', '5.alg'),
-    ('abs-axis', T, '*_dz*2.0, axis=0)', '*_dz*2.0, axis=1)', '5.alg'),
-    ('abs-rs', T, '/(sradius**2), tau', '/(sradius), tau', '5.alg'),
+    ('pi-tau-reset', T, "dl = path_length[layer]", "dl = path_length[layer]\n            tau[layer] = 0.0", '3.noreset'),
+    ('abs-drop-z', T, 'np.sum((pradius + ap) * (1.0 - tau) * _dz * 2.0, axis=0)',
+     'np.sum(pradius * (1.0 - tau) * _dz * 2.0, axis=0)', '5.alg'),
+    ('abs-axis', T, '* _dz * 2.0, axis=0)', '* _dz * 2.0, axis=1)', '5.alg'),
+    ('abs-rs', T, '/ sradius ** 2, tau', '/ sradius, tau', '5.alg'),
     ('abs-sign', T, 'tau = np.exp(-tau)', 'tau = np.exp(tau)', '5.alg'),
-    ('chord-len', T, 'k = np.zeros(shape=(self.nLayers-layer))',
-     'k = np.zeros(shape=(self.nLayers-layer+1))', '6.len'),
-    ('chord-scale', T, 'dl.append(k*2.0)', 'dl.append(k)', '6.scale'),
-    ('chord-geom', T, 'z[layer:self.nLayers-1] +', 'z[layer+1:self.nLayers] +', '6.geom'),
+    ('abs-dz-source', T, 'absorption, tau = self.compute_absorption(tau, dz)', 'absorption, tau = self.compute_absorption(tau, self.altitudeProfile)', '5.feed'),
+    ('chord-len', T, 'k = np.zeros(shape=self.nLayers - layer)',
+     'k = np.zeros(shape=self.nLayers - layer + 1)', '6.len'),
+    ('chord-scale', T, 'dl.append(k * 2.0)', 'dl.append(k)', '6.scale'),
+    ('chord-geom', T, 'z[layer:self.nLayers - 1] +', 'z[layer + 1:self.nLayers] +', '6.geom'),
 ]
 EQUIVALENTS = [
-    ('kernel-commute', K, 'sigma[k+layer, wn]*_path*_density', '_density*sigma[layer+k, wn]*_path'),
-    ('kernel-inline-temp', K, 'tau[layer, wn] += sigma[k+layer, wn]*_path*_density',
-     'tau[layer, wn] += sigma[k+layer, wn]*path[k]*_density'),
-    ('abs-np-math', T, 'integral = np.sum((pradius+ap)*(1.0-tau)*_dz*2.0, axis=0)',
-     'integral = 2.0*np.sum(_dz*(ap+self.planet.fullRadius)*(1.0-tau), axis=0)'),
-    ('abs-temp', T, 'return ((pradius**2.0) + integral)/(sradius**2), tau',
-     'depth = (pradius*pradius + integral)/(self.star.radius**2)\n        return depth, tau'),
+    ('kernel-commute', K, 'tau[layer, wn] += sigma[k + layer, wn] * _path * _density', 'tau[layer, wn] += _density * sigma[layer + k, wn] * _path'),
+    ('kernel-inline-temp', K, 'tau[layer, wn] += sigma[k + layer, wn] * _path * _density',
+     'tau[layer, wn] += sigma[k + layer, wn] * path[k] * _density'),
+    ('abs-np-math', T, 'integral = np.sum((pradius + ap) * (1.0 - tau) * _dz * 2.0, axis=0)',
+     'integral = 2.0 * np.sum(_dz * (ap + self.planet.fullRadius) * (1.0 - tau), axis=0)'),
+    ('abs-temp', T, 'return ((pradius ** 2.0 + integral) / sradius ** 2, tau)',
+     'depth = (pradius * pradius + integral) / self.star.radius ** 2\n        return (depth, tau)'),
     ('pi-cutoff-np-min', T, 'if tau[layer].min() > 10:', 'if np.min(tau[layer]) > 10.0:'),
     ('pi-inline-endK', T, 'contrib.contribute(self, 0, endK, layer, layer,',
-     'contrib.contribute(self, 0, self.nLayers-layer, layer, layer,'),
+     'contrib.contribute(self, 0, self.nLayers - layer, layer, layer,'),
+    ('pi-rename-loopvar', T, "for contrib in self.contribution_list:\n                if tau[layer].min() > 10:\n                    break\n                self.debug('Adding contribution from %s', contrib.name)\n                contrib.contribute(",
+     "for cc in self.contribution_list:\n                if tau[layer].min() > 10:\n                    break\n                cc.contribute("),
 ]
